@@ -98,7 +98,8 @@ RunOK(r, ref, level) ==
        /\ r.stdout = ref.out /\ r.stderr = ref.err
 LevelOf(how) == IF how \in {"run-O0", "compiled-O0"} THEN 0 ELSE 1
 
-ObsRef(e) == Obs(RunFor(InitState(e.input), ProgOf(e.prog), e.bound), ProgOf(e.prog))
+ObsCap == 16     \* digits (base 256) beyond which the reference run is cut
+ObsFinal(e) == RunCapped(InitState(e.input), ProgOf(e.prog), e.bound, ObsCap)
 ObsBadRuns(e, ref) == {i \in DOMAIN e.runs : ~RunOK(e.runs[i], ref, LevelOf(e.runs[i].how))}
 
 \* ---- the trace machine
@@ -110,8 +111,10 @@ Step1 ==
      IF e.ev = "reset" THEN
         /\ prog' = ProgOf(e.prog) /\ m' = InitState(e.input) /\ mode' = "run" /\ UNCHANGED bad
      ELSE IF e.ev = "obs" THEN
-        LET ref == ObsRef(e)
-            unspec == RunFor(InitState(e.input), ProgOf(e.prog), e.bound).status = "unspec"
+        LET theorem == e.tag = "catloop-by-theorem"     \* MC_Cat: CatLoop copies every non-empty input
+            fin == ObsFinal(e)
+            ref == IF theorem THEN [out |-> e.input, err |-> <<>>, ending |-> "end"] ELSE Obs(fin, ProgOf(e.prog))
+            unspec == IF theorem THEN FALSE ELSE fin.status = "unspec"
             badruns == IF unspec \/ ~e.text_ok THEN {} ELSE ObsBadRuns(e, ref)
         IN /\ (IF e.text_ok THEN TRUE ELSE PrintT(<<"TEXT-MISPARSED", l, ToJson(e.prog)>>))
            /\ (IF badruns = {} THEN TRUE
